@@ -1,6 +1,6 @@
 (* Props/C01.v — a run's verdict is exactly what the generated error and decoding imply. *)
 From Coq Require Import Arith List Bool Lia ZArith QArith.
-From QV Require Import Core.Bits Core.Pauli Core.Symp Core.Code App.RunOnce.
+From QV Require Import Core.Bits Core.Pauli Core.Symp Core.Code Core.CodeP App.RunOnce App.RunOnceP.
 Import ListNotations.
 Open Scope nat_scope.
 
@@ -29,6 +29,16 @@ Theorem c01_verdict : forall c error w r lc cv d,
   (lc = None -> d_lc d = Some (map b2z (map (fun l => bsp (xorv r error) l) (logicals c)))) /\
   d_cv d = cv /\ d_weight d = w.
 Proof. exact verdict. Qed.
+(* the same on Pauli strings, with the independent letter-level commutation: success iff the product
+   recovery * error commutes with every stabilizer and logical; logical_commutations are its commutations *)
+Theorem c01_verdict_pauli : forall n ss xs zs (r e : pstr) w lc cv d,
+  uniform n ss -> uniform n xs -> uniform n zs -> length r = n -> length e = n ->
+  resolve (code_of ss xs zs) (to_bsf e) w (DR None lc (Some (to_bsf r)) cv) = Some d ->
+  (d_success d = true <->
+     (forall s, In s ss -> anticommutes (pmul r e) s = false) /\
+     (forall l, In l (xs ++ zs) -> anticommutes (pmul r e) l = false)) /\
+  (lc = None -> d_lc d = Some (map b2z (map (fun l => anticommutes (pmul r e) l) (xs ++ zs)))).
+Proof. exact verdict_pauli. Qed.
 Theorem c01_bare_recovery : forall c error w r,
   resolve c error w (Bare (Some r)) = resolve c error w (DR None None (Some r) None).
 Proof. exact verdict_bare. Qed.
@@ -66,5 +76,5 @@ Example c01_ex :
 Proof. vm_compute. auto. Qed.
 
 Print Assumptions c01_syndrome_ideal. Print Assumptions c01_syndrome_ftp. Print Assumptions c01_ftp_parity.
-Print Assumptions c01_verdict. Print Assumptions c01_bare_recovery. Print Assumptions c01_passthrough.
+Print Assumptions c01_verdict. Print Assumptions c01_verdict_pauli. Print Assumptions c01_bare_recovery. Print Assumptions c01_passthrough.
 Print Assumptions c01_error_iff. Print Assumptions c01_weight. Print Assumptions c01_reject.
